@@ -371,7 +371,7 @@ M("c17-subarray-drops-offset", ["C17"], VM,
 M("c18-new-unguarded-int", ["C18", "C04"], VM,
   "        def valueOf(*args):\n            return n\n", "        def valueOf(*args):\n            return n\n\n        def toInteger(*args):\n            return int(n)\n",
   [], note="a new native that is not registered in the method table is not script-reachable: the analysis correctly ignores it (twin-like)")
-M("c19-loads-default", ["C19"], CX, "                    text, parse_constant=reject_constant, parse_int=integer_token\n", "                    text, parse_int=integer_token\n", [("C19", "C19-R1", "json.loads")])
+M("c19-loads-default", ["C19"], CX, "                    text, parse_constant=reject_constant, parse_int=decimal_integer\n", "                    text, parse_int=decimal_integer\n", [("C19", "C19-R1", "json.loads")])
 M("c19-stringify-host-float-spelling", ["C19"], CX, "                    return to_string(v)\n                if isinstance(v, str):\n                    return json.dumps(v, ensure_ascii=False)", "                    return repr(v)\n                if isinstance(v, str):\n                    return json.dumps(v, ensure_ascii=False)", [("C19", "C19-R1", "number-branch")])
 M("c19-stringify-ascii-escapes", ["C19"], CX, "                    return json.dumps(v, ensure_ascii=False)", "                    return json.dumps(v)", [("C19", "C19-R1", "ensure_ascii")])
 M("c19-functions-not-omitted", ["C19"], CX, "                    or isinstance(v, (JSFunction, JSCallableObject))\n", "", [("C19", "C19-R5", "object-omission")])
@@ -769,9 +769,9 @@ M("c13-lexer-unicode-digits", ["C13", "C04"], LX,
   "        while self._current() and _is_digit(self._current()):\n            self._advance()\n\n        # Decimal point",
   "        while self._current() and self._current().isdigit():\n            self._advance()\n\n        # Decimal point",
   [("C13", "C13-R6", "_read_number"), ("C04", "C04-R7", "_read_number")], note="fix 0f614d1 reverted at one scanner loop")
-M("c18-parsefloat-unicode-digits", ["C18"], CX,
-  "                if \"0\" <= s[i] <= \"9\":", "                if s[i].isdigit():",
-  [("C18", "C18-R5", "parseFloat_fn")], note="fix 0f614d1 reverted in Number.parseFloat")
+M("c18-parsefloat-host-digit-class", ["C18"], VA,
+  "_DECIMAL = r\"[+-]?(?:Infinity|(?:[0-9]+\\.?[0-9]*|\\.[0-9]+)(?:[eE][+-]?[0-9]+)?)\"", "_DECIMAL = r\"[+-]?(?:Infinity|(?:\\d+\\.?\\d*|\\.\\d+)(?:[eE][+-]?\\d+)?)\"",
+  [("C18", "C18-R5", "_DECIMAL")], note="the decimal grammar written with the host's \\d, which is true for the digits of every script (the slip of 0f614d1 in the pattern that parseFloat and ToNumber now share)")
 M("c08-index-by-int-only", ["C08", "C17"], VM,
   "        if isinstance(obj, str):\n            # String character access\n            idx = array_index(key_str)\n            if idx is not None and idx < len(obj):\n                return obj[idx]\n",
   "        if isinstance(obj, str):\n            # String character access\n            try:\n                idx = int(key_str)\n                if 0 <= idx < len(obj):\n                    return obj[idx]\n            except ValueError:\n                pass\n",
@@ -820,8 +820,8 @@ M("c06-add-not-normalised", ["C06"], VM,
   "        return js_number(to_number(a) + to_number(b))\n", "        return to_number(a) + to_number(b)\n",
   [("C06", "C06-R5", "_add")], note="fix 17cfa3c reverted for +")
 M("c06-literal-not-normalised", ["C06"], LX,
-  "        return js_number(int(num_str))", "        return int(num_str)",
-  [("C06", "C06-R5", "_read_number")], note="fix 17cfa3c reverted for decimal literals")
+  "                return js_number(int(hex_str, 16))", "                return int(hex_str, 16)",
+  [("C06", "C06-R5", "_read_number")], note="fix 17cfa3c reverted for hex literals")
 M("c16-trim-host-whitespace", ["C16"], VM,
   "            return s.strip(_JS_WHITESPACE)\n", "            return s.strip()\n",
   [("C16", "C16-R6", "trim")], note="fix 23541d6 reverted for trim")
@@ -1016,8 +1016,8 @@ TP("t-bytecode-length-checked-at-finish", ALL_PROPS, "selftest/patches/t-bytecod
 S("seed-C18-d", ["C18"], "seeded/C18-d/patch.diff", [("C18", "C18-R12", "_RADIX_LITERAL")], note="to_number strips the sign before it decides the kind of literal: signed radix literals are accepted")
 TP("t-to-number-sign-first", ALL_PROPS, "selftest/patches/t-to-number-sign-first.diff", note="the same sign-first conversion with the radix literal tested on the unsigned-by-grammar text first (repaired C18-d)")
 M("c18-minus-zero-text-through-int", ["C18"], VA,
-  "        if n == 0 and s.startswith(\"-\"):\n            return -0.0  # \"-0\": a host int has no negative zero\n", "",
-  [("C18", "C18-R12", "negative-zero")], note="fix 3476877 reverted in to_number")
+  "    if value == 0 and digits.startswith(\"-\"):\n        return -0.0\n", "",
+  [("C18", "C18-R12", "negative-zero")], note="fix 3476877 reverted (now in decimal_integer, which to_number, the lexer and JSON.parse share)")
 S("seed-C13-d", ["C13"], "seeded/C13-d/patch.diff", [("C13", "C13-R7", "_is_arrow_function_params")], note="mark/reset refactoring of the look-aheads; the handler's early return skips the reset (second author, the slip of C13-b)")
 S("seed-C09-e", ["C09"], "seeded/C09-e/patch.diff", [("C09", "C09-R4", "snapshots")], note="captures made copy-on-write; RESET_IF_NO_ADV still writes in place")
 TP("t-captures-copy-on-write", ALL_PROPS, "selftest/patches/t-captures-copy-on-write.diff", note="copy-on-write captures with every writer replacing the list first (repaired C09-e)")
@@ -1047,3 +1047,48 @@ S("seed-C07-f", ["C07", "C05", "C02"], "seeded/C07-f/patch.diff", [("C07", "C07-
 TP("t-function-state-record", ALL_PROPS, "selftest/patches/t-function-state-record.diff", note="the same helper pair with loop_stack cleared (repaired C07-f)")
 S("seed-C05-f", ["C05", "C02"], "seeded/C05-f/patch.diff", [("C05", "C05-R3", "IfStatement"), ("C02", "C02-R6", "IfStatement")], note="peephole for `if (c) break/continue` that jumps straight to the target when no try is crossed, forgetting the operands of crossed for-in/for-of/switch")
 TP("t-guarded-jump-peephole", ALL_PROPS, "selftest/patches/t-guarded-jump-peephole.diff", note="the same peephole, declined whenever a crossed context holds operands (repaired C05-f)")
+
+# ---- wave 10 --------------------------------------------------------------------------------------------
+M("c04-literal-through-int", ["C04"], LX,
+  "        return decimal_integer(num_str)\n", "        return js_number(int(num_str))\n",
+  [("C04", "C04-R12", "_read_number")], note="fix bd55290 reverted in the lexer: a literal of 5000 digits raises the host's ValueError")
+M("c04-index-key-unbounded", ["C04"], VA,
+  "        return int(key) if len(key) <= 20 else 10**20\n", "        return int(key)\n",
+  [("C04", "C04-R12", "array_index")], note="fix bd55290 reverted for index-like keys")
+M("c06-decimal-integer-exact", ["C06", "C19", "C04"], VA,
+  "    return int(value) if abs(value) <= 2**53 else value\n", "    return int(digits)\n",
+  [("C06", "C06-R5", "decimal_integer"), ("C19", "C19-R7", "decimal_integer"), ("C04", "C04-R12", "decimal_integer")], note="the shared digit reader returns the exact host int again")
+M("c19-json-no-integer-hook", ["C19", "C06"], CX,
+  "parse_constant=reject_constant, parse_int=decimal_integer", "parse_constant=reject_constant",
+  [("C19", "C19-R7", "json.loads"), ("C06", "C06-R5", "json.loads")], note="JSON.parse lets the host parser build ints of unlimited precision")
+M("c18-number-parsefloat-second-copy", ["C18"], CX,
+  "        num_constructor.set(\"parseFloat\", self._global_parsefloat)\n",
+  "        def parseFloat_fn(*args):\n            s = to_string(args[0]) if args else \"\"\n            s = s.strip(_JS_WHITESPACE)\n            if s.startswith(\"Infinity\"):\n                return float(\"nan\")\n            return parse_float(s)\n\n        num_constructor.set(\"parseFloat\", parseFloat_fn)\n",
+  [("C18", "C18-R13", "parseFloat")], note="Number.parseFloat gets a copy of its own again, which disagrees on 'Infinity' (the defect fixed by db59e6b)")
+T("t-number-parsefloat-same-statements", ["C18", "C16", "C04"], CX,
+  "        num_constructor.set(\"parseFloat\", self._global_parsefloat)\n",
+  "        def parseFloat_fn(*args):\n            return parse_float(to_string(args[0]) if args else \"\")\n\n        num_constructor.set(\"parseFloat\", parseFloat_fn)\n",
+  note="a second function with the same statements is not a disagreement")
+S("seed-C01-f", ["C01"], "seeded/C01-f/patch.diff", [("C01", "C01-R2", "_check_limits")], note="native calls charged as 9 steps: the counter jumps over the multiples of the polling period, which is tested with ==")
+S("seed-C04-e", ["C04", "C16"], "seeded/C04-e/patch.diff", [("C04", "C04-R13", "_get_property"), ("C16", "C16-R11", "_get_property")], note="integer-key fast path of property reads indexes a host string with a one-sided range test", silent=("C03",))
+TP("t-integer-key-fast-path", ALL_PROPS, "selftest/patches/t-integer-key-fast-path.diff", note="the same fast path with 0 <= key < len (repaired C04-e)")
+S("seed-C06-e", ["C06"], "seeded/C06-e/patch.diff", [("C06", "C06-R4", "_to_int32")], note="ToInt32 fast path for host ints forgets that bool is one")
+S("seed-C09-f", ["C09"], "seeded/C09-f/patch.diff", [("C09", "C09-R4", "_run_lookahead")], note="lookahead helper copies the captures for the positive form only: a failing negative lookahead body leaves its captures set")
+S("seed-C11-e", ["C11", "C12"], "seeded/C11-e/patch.diff", [("C11", "C11-R9", "_enter_container"), ("C12", "C12-R8", "_enter_container")], note="conversion path kept on the context; the depth refusal comes after the push, outside the callers' try")
+TP("t-conversion-path-on-context", ALL_PROPS, "selftest/patches/t-conversion-path-on-context.diff", note="the same context-held path with the refusal before the push (repaired C11-e)")
+S("seed-C13-e", ["C13"], "seeded/C13-e/patch.diff", [("C13", "C13-R12", "_read_string")], note="string literals without a backslash taken as one slice up to the next quote: line breaks inside are accepted")
+TP("t-string-literal-fast-path", ALL_PROPS, "selftest/patches/t-string-literal-fast-path.diff", note="the same fast path declined when the slice holds a line break (repaired C13-e)")
+S("seed-C14-e", ["C14"], "seeded/C14-e/patch.diff", [("C14", "C14-R1", "case_positions")], note="jump targets range-checked where they are recorded (_here); the switch clause positions are recorded without it", silent=("C02", "C05", "C07"))
+TP("t-jump-targets-checked-when-recorded", ALL_PROPS, "selftest/patches/t-jump-targets-checked-when-recorded.diff", note="the same refactoring with all eight recorders converted (repaired C14-e)")
+S("seed-C15-f", ["C15"], "seeded/C15-f/patch.diff", [("C15", "C15-R1", "JSObject.keys")], note="accessor properties enumerated through the union of two key views, which is a set")
+TP("t-accessors-enumerated", ALL_PROPS, "selftest/patches/t-accessors-enumerated.diff", note="accessors enumerated in definition order through a merged dict (repaired C15-f)")
+S("seed-C16-e", ["C16"], "seeded/C16-e/patch.diff", [("C16", "C16-R10", "lastIndexOf")], note="one position helper for five string methods: lastIndexOf loses its NaN-means-end rule (the defect of 7e34772 again)")
+TP("t-string-position-helper", ALL_PROPS, "selftest/patches/t-string-position-helper.diff", note="the same helper with a flag for the NaN rule (repaired C16-e)")
+S("seed-C18-e", ["C18"], "seeded/C18-e/patch.diff", [("C18", "C18-R7", "pattern")], note="parseFloat's leading white space skipped by \\\\s inside the host pattern (ported onto db59e6b, which made the same clean-up without the slip)", silent=("C16",))
+TP("t-parsefloat-whitespace-in-pattern", ALL_PROPS, "selftest/patches/t-parsefloat-whitespace-in-pattern.diff", note="white space skipped inside the pattern with the ECMAScript set (repaired C18-e)")
+M("c16-lastindexof-nan-is-zero", ["C16"], VM,
+  "            if len(args) > 1 and to_number(args[1]) != to_number(args[1]):\n                end = len(s)  # a position that is not a number means the end\n", "",
+  [("C16", "C16-R10", "lastIndexOf")], note="fix 7e34772 reverted for String lastIndexOf")
+M("c14-emit-check-dropped", ["C14"], CO,
+  "                if not 0 <= arg <= 0xFFFF:\n", "                if False:\n",
+  [("C14", "C14-R1", "_emit")], note="the range check of emitted jump targets disabled")
